@@ -129,6 +129,8 @@ def main():
             # hypotheses of the kind-F theorems, evaluated by the extracted model on the orders recorded from the real chart
             if res.get('plain') and not res.get('ambiguous_orders'):
                 st['plain_programs_runs'] += 1
+                if res.get('orders_valid') and res.get('orders_by_depth'):
+                    st['plain_c06_hypotheses_hold'] += 1
                 if res.get('orders_valid'):
                     st['plain_hypotheses_hold'] += 1
                     if obs['verdict'] == 'deadlock':
